@@ -224,6 +224,11 @@ pub fn blob(bytes: &'static [u8]) -> StreamingBlob {
     StreamingBlob::wrap(futures::stream::once(async move { Ok::<_, std::io::Error>(Bytes::from_static(bytes)) }))
 }
 
+/// a stream that yields the given chunks one by one (empty chunks included)
+pub fn blob_chunks(chunks: &'static [&'static [u8]]) -> StreamingBlob {
+    StreamingBlob::wrap(futures::stream::iter(chunks.iter().map(|c| Ok::<_, std::io::Error>(Bytes::from_static(c)))))
+}
+
 pub static BLOB_4097: std::sync::LazyLock<Vec<u8>> = std::sync::LazyLock::new(|| (0..4097u32).map(|i| (i % 251) as u8).collect());
 
 impl Gen for StreamingBlob {
@@ -232,7 +237,18 @@ impl Gen for StreamingBlob {
     }
     fn alts(_: Pos, _: u32) -> Alts<Self> {
         let mk = |label: &str, f: fn() -> StreamingBlob| -> (String, Mutator<StreamingBlob>) { (format!("={label}"), Arc::new(move |b: &mut StreamingBlob| *b = f())) };
-        vec![mk("5B", || blob(b"hello")), mk("4097B", || blob(BLOB_4097.as_slice())), mk("crlf", || blob(b"\r\n--x\r\n0;chunk-signature=\r\n"))]
+        vec![
+            mk("5B", || blob(b"hello")),
+            mk("4097B", || blob(BLOB_4097.as_slice())),
+            mk("crlf", || blob(b"\r\n--x\r\n0;chunk-signature=\r\n")),
+            // how the producer chunks its stream must not matter: empty chunks first / in the middle / last, 1-byte chunks, no chunk at all
+            mk("chunks['','hello']", || blob_chunks(&[b"", b"hello"])),
+            mk("chunks['he','','llo']", || blob_chunks(&[b"he", b"", b"llo"])),
+            mk("chunks['hello','']", || blob_chunks(&[b"hello", b""])),
+            mk("chunks[h,e,l,l,o]", || blob_chunks(&[b"h", b"e", b"l", b"l", b"o"])),
+            mk("chunks['','']", || blob_chunks(&[b"", b""])),
+            mk("chunks[]", || blob_chunks(&[])),
+        ]
     }
 }
 
